@@ -21,7 +21,7 @@ def gen_items(rng, nlines, allow_include=True, allow_nested=False):
         elif r < 0.75 and allow_include: items.append(["include", rng.randint(1, 3), sorted(rng.sample(TARGETS, rng.randint(1, 3)))])
         elif r < 0.9:
             if not inside or (allow_nested and rng.random() < 0.5):
-                items.append(["open", rng.randint(1, 2), rng.randint(1, 2)]); inside = True
+                items.append(["open", rng.randint(1, 2), rng.randint(1, 6)]); inside = True
             else:
                 items.append(["close"]); inside = False
         else:
